@@ -121,6 +121,34 @@ def run(res):
         capi_ops.append("write")
         lines.append("capi %s %s %s %s" % (kind, data.hex() or "-", order, " ".join(capi_ops)))
         metas.append((kind, data, label, order, ops, capi_ops))
+    # ---- dovi_parse_rpu_bin_file / dovi_rpu_list_free: files of valid RPUs, empty, corrupted, without start code, missing
+    fl = []
+    valid_raws = [raw.rstrip(b"\x00") for t, raw, m in trees[:12]]
+    for k in (1, 3, 8):
+        fl.append(("%d valid RPUs" % k, b"".join(b"\x00\x00\x00\x01" + R.escape(x) for x in valid_raws[:k])))
+    if len(valid_raws) >= 3:
+        bad = bytearray(valid_raws[1]); bad[len(bad) // 2] ^= 0x5A
+        fl.append(("corrupted entry in the middle", b"".join(b"\x00\x00\x00\x01" + R.escape(bytes(x)) for x in (valid_raws[0], bad, valid_raws[2]))))
+    fl += [("empty file", b""), ("no start code", bytes(range(1, 60))), ("start code only", b"\x00\x00\x00\x01"), ("missing file", None)]
+    fo = C.dvh().run(["capifile " + ("missing" if d is None else (d.hex() or "-")) for _, d in fl])
+    nfile = 0
+    for (label, d), o in zip(fl, fo):
+        rp = {"kind": "file", "label": label, "input": None if d is None else d.hex()}
+        key = "list-free-null" if not o.startswith("ok ") else None
+        if not o.startswith("ok "):
+            res.violation("dovi_parse_rpu_bin_file + dovi_rpu_list_free does not return (%s) on: %s" % (o[:40], label), rp, key=key)
+            continue
+        if o == "ok null":
+            res.violation("dovi_parse_rpu_bin_file returns a null list for: %s" % label, rp)
+            continue
+        c = json.loads(o[3:])
+        nfile += 1
+        if (c["error"] is None) != c["rust"]["ok"]:
+            res.violation("dovi_parse_rpu_bin_file: error string %r where the Rust reader %s (%s)" % (c["error"], "succeeds" if c["rust"]["ok"] else "fails", label), rp)
+        elif c["rust"]["ok"] and (c["len"] != len(c["rust"]["items"]) or c["items"] != c["rust"]["items"]):
+            res.violation("dovi_parse_rpu_bin_file: %d entries, the Rust reader returns %d, or their bytes differ (%s)" % (c["len"], len(c["rust"]["items"]), label), rp)
+        elif not c["rust"]["ok"] and (c["len"] != 0 or not c["list_null"]):
+            res.violation("dovi_parse_rpu_bin_file: failed list with len %d / non-null list (%s)" % (c["len"], label), rp)
     out = C.run_sharded(C.dvh, lines)
     nok = nerr = 0
     # Rust-side references: the state after every prefix of the op list, and the four writes at the end
